@@ -300,10 +300,35 @@ def check_gates(rep: Report, prog: Program, rid: str) -> None:
         cfg = CFG(fi.node)
         dom = cfg.dominators()
         gate = None
+        via = ""
         for n in cfg.stmt_nodes():
             if n.kind == "test" and isinstance(n.ast, ast.If) and ast.unparse(n.ast.test).count(".dimension") >= 2 \
                     and n.ast.body and isinstance(n.ast.body[-1], ast.Return) and ast.unparse(n.ast.body[-1].value or ast.Constant(0)) == "NotImplemented":
                 gate = n
+        if gate is None:
+            # the gate may live in a helper whose `None` result is turned into NotImplemented here
+            for n in cfg.stmt_nodes():
+                if not (n.kind == "test" and isinstance(n.ast, ast.If) and n.ast.body and isinstance(n.ast.body[-1], ast.Return)
+                        and ast.unparse(n.ast.body[-1].value or ast.Constant(0)) == "NotImplemented"):
+                    continue
+                t = n.ast.test
+                var = None
+                if isinstance(t, ast.Compare) and len(t.ops) == 1 and isinstance(t.ops[0], ast.Is) and isinstance(t.left, ast.Name) \
+                        and isinstance(t.comparators[0], ast.Constant) and t.comparators[0].value is None:
+                    var = t.left.id
+                elif isinstance(t, ast.UnaryOp) and isinstance(t.op, ast.Not) and isinstance(t.operand, ast.Name):
+                    var = t.operand.id
+                if var is None:
+                    continue
+                for a in ast.walk(fi.node):
+                    if isinstance(a, ast.Assign) and any(isinstance(x, ast.Name) and x.id == var for x in a.targets) \
+                            and isinstance(a.value, ast.Call) and isinstance(a.value.func, ast.Attribute):
+                        for hq in prog.method("Quantity", a.value.func.attr):
+                            h = prog.functions[hq]
+                            for hs in ast.walk(h.node):
+                                if isinstance(hs, ast.If) and ast.unparse(hs.test).count(".dimension") >= 2 and hs.body \
+                                        and isinstance(hs.body[-1], ast.Return) and ast.unparse(hs.body[-1].value or ast.Constant(0)) == "None":
+                                    gate, via = n, hq
         sens = []
         for n in cfg.stmt_nodes():
             if n.ast is None or (gate is not None and _inside(n.ast, gate.ast)):
@@ -320,7 +345,8 @@ def check_gates(rep: Report, prog: Program, rid: str) -> None:
             continue
         bad = [n for n in sens if gate.nid not in dom.get(n.nid, set())]
         rep.check(rid, f"{q}:gate", not bad and bool(sens),
-                  "a magnitude comparison or a conversion can execute before the dimension gate", fi.where(bad[0].ast if bad else None))
+                  "a magnitude comparison or a conversion can execute before the dimension gate", fi.where(bad[0].ast if bad else None),
+                  note=f"gate in {via}" if via else None)
     # Measurement.__eq__: False on differing dimensions before bounds are computed
     fi = prog.func("Measurement.__eq__")
     found = False
